@@ -23,6 +23,14 @@ func (p *Parser) getToken() {
 		case '\n':
 			p.Row++
 
+		case base.STRING:
+			p.ErrorRow = p.Row
+
+			// newlines inside a string literal are counted once, when the token is lexed
+			if stringValue, ok := p.Lexer.Value().(string); ok {
+				p.Row += strings.Count(stringValue, "\n")
+			}
+
 		default:
 			p.ErrorRow = p.Row
 		}
@@ -98,14 +106,6 @@ func (p *Parser) Read() (*base.T, error) {
 	case base.STRING:
 		stringValue := p.Lexer.Value().(string)
 		t = base.MakeString(stringValue)
-
-		if p.BeforeString != stringValue {
-			// Count newlines in string and increment p.Row accordingly
-			newlineCount := strings.Count(stringValue, "\n")
-			p.Row += newlineCount
-		}
-
-		p.BeforeString = stringValue
 
 	case base.NIL:
 		t = base.MakeNil()
